@@ -98,7 +98,15 @@ HexEnc(y) == IF y = <<>> THEN <<>>
 RECURSIVE HexDec(_)
 HexDec(s) == IF s = <<>> THEN <<>>
              ELSE <<HexVal(s[1]) * 16 + HexVal(s[2])>> \o HexDec(SubSeq(s, 3, Len(s)))
-HexOk(s) == Len(s) % 2 = 0 /\ \A i \in DOMAIN s : IsHexChar(s[i])
+\* bytes.fromhex: ASCII whitespace is skipped between bytes (not inside one)
+RECURSIVE HexScan(_, _)
+HexScan(s, acc) ==
+    IF s = <<>> THEN [ok |-> TRUE, y |-> acc]
+    ELSE IF Head(s) \in Whitespace \cup {"\f"} THEN HexScan(Tail(s), acc)
+    ELSE IF Len(s) >= 2 /\ IsHexChar(s[1]) /\ IsHexChar(s[2])
+         THEN HexScan(SubSeq(s, 3, Len(s)), Append(acc, HexVal(s[1]) * 16 + HexVal(s[2])))
+    ELSE [ok |-> FALSE, y |-> acc]
+HexOk(s) == HexScan(s, <<>>).ok
 
 B64Alphabet == <<"A","B","C","D","E","F","G","H","I","J","K","L","M","N","O","P","Q","R","S","T",
                  "U","V","W","X","Y","Z","a","b","c","d","e","f","g","h","i","j","k","l","m","n",
@@ -451,7 +459,7 @@ ToPythonK(f, b, key) ==
             IF IsNone(b) THEN Ok(b)
             ELSE IF ~IsStr(b) THEN Fail("ValueError")
             ELSE IF f.encoding = "hex"
-                 THEN IF HexOk(b.s) THEN Ok(BytesV(HexDec(b.s))) ELSE Fail("ValueError")
+                 THEN IF HexOk(b.s) THEN Ok(BytesV(HexScan(b.s, <<>>).y)) ELSE Fail("ValueError")
                  ELSE IF B64Ok(b.s) THEN Ok(BytesV(B64Dec(b.s))) ELSE Fail("Unmodelled")
       [] f.kind = "secure" ->
             \* secure_field.py to_python: None and plain strings pass through; a stored secret
